@@ -18,6 +18,7 @@ from .common import HarnessError, Stats
 
 VERIF = os.path.dirname(os.path.dirname(os.path.abspath(__file__)))
 REPLAY_PY = '/venv/bin/python'
+REPO = os.environ.get('VERIF_REPO', '/repo')
 
 _W = {}
 
@@ -109,7 +110,7 @@ def explore_family(modname, fam, params, seed, budget_s, procs, max_paths=None, 
         def prof(frame, event, arg):
             if event == 'call':
                 fn = frame.f_code.co_filename
-                if fn.startswith('/repo/file_builder/') and '/test/' not in fn:
+                if fn.startswith(REPO + '/file_builder/') and '/test/' not in fn:
                     funcs.add('%s:%s' % (os.path.basename(fn), frame.f_code.co_qualname
                                          if hasattr(frame.f_code, 'co_qualname') else frame.f_code.co_name))
         import threading
@@ -203,14 +204,22 @@ def write_replay(prop, modname, fam, params, rec, sub=None):
     return path
 
 
-def run_replay(path, timeout=120):
+def run_replay(path, timeout=180):
     """Replay on the real OS with the interpreter the test-suite uses.
     Returns (status, failures): status in reproduced | not-reproduced | error"""
     env = dict(os.environ)
-    env['PYTHONPATH'] = '/repo:' + VERIF
+    env['PYTHONPATH'] = REPO + ':' + VERIF
     env.setdefault('PYTHONHASHSEED', '0')
     try:
-        p = subprocess.run([REPLAY_PY, os.path.join(VERIF, 'replay.py'), path], capture_output=True,
+        py = REPLAY_PY
+        try:
+            with open(path) as fh:
+                if json.load(fh).get('params', {}).get('lines'):
+                    # line-level schedules are tied to the interpreter's line events: replay under the same Python
+                    py = sys.executable
+        except Exception:
+            pass
+        p = subprocess.run([py, os.path.join(VERIF, 'replay.py'), path], capture_output=True,
                            text=True, timeout=timeout, env=env)
     except subprocess.TimeoutExpired:
         return 'error', [{'error': 'replay timed out'}]
